@@ -6,7 +6,8 @@
    Child names are integers 0..K-1 (K = cfg[0]); "" is -1.  Connectivity states:
    0 IDLE, 1 CONNECTING, 2 READY, 3 TRANSIENT_FAILURE.  Picker ids: 0 = the
    ErrNoSubConnAvailable placeholder of a child that is not started, -1 =
-   ErrAllPrioritiesRemoved, anything else = the id a stub child attached.  Time is in
+   ErrAllPrioritiesRemoved, -4 = the error picker of a child whose UpdateClientConnState
+   failed, anything else = the id a stub child attached.  Time is in
    units of one second; DefaultPriorityInitTimeout = 10 units.  The balancer group's
    sub-balancer cache is disabled (SubBalancerCloseTimeout = 0), so stop() closes the
    child policy at once and "built" = started.  No proofs here. *)
@@ -67,9 +68,15 @@ Definition start_timer (t : Z) (c : child) : child :=
   | None => mkchild (started c) (cstate c) (picker c) (tf c) (Some (t + initTimeout)) (btype c)
   end.
 
-(* childBalancer.start (sendUpdate to a stub child never fails) *)
+(* policy types 2 and 3 reject the first UpdateClientConnState after they are built *)
+Definition fails (c : child) : bool := 2 <=? btype c.
+
+(* childBalancer.start.  If sendUpdate fails (policy type >= 2) the child reports
+   TRANSIENT_FAILURE with an error picker (id -4) through handleChildStateUpdate: state TF,
+   reportedTF, init timer stopped; the nested syncPriority is in sync_scan. *)
 Definition start_child (t : Z) (c : child) : child :=
   if started c then c
+  else if fails c then mkchild true TF (-4) true None (btype c)
   else start_timer t (mkchild true (cstate c) (picker c) (tf c) (timer c) (btype c)).
 
 Definition mem (n : Z) (l : list Z) : bool := existsb (Z.eqb n) l.
@@ -107,7 +114,17 @@ Fixpoint sync_scan (st : state) (updating : Z) (l : list Z) : state :=
       if eligible c (match r with [] => true | _ => false end) then
         let st1 := if negb (inuse st =? name) || (name =? updating)
                    then emit st (cstate c) (picker c) else st in
-        switch_to st1 name r
+        let st2 := switch_to st1 name r in
+        (* a start that failed ran handleChildStateUpdate -> syncPriority(name) from inside
+           start(): the priorities before this one are unchanged and not eligible, this one is
+           now TF, so that nested scan continues with the next priority (the last priority
+           stays in use and its error picker is pushed) *)
+        if negb (started c) && fails c then
+          match r with
+          | [] => emit st2 TF (-4)
+          | _ => sync_scan st2 name r
+          end
+        else st2
       else sync_scan st updating r
     end
   end.
@@ -203,7 +220,7 @@ Fixpoint nodup_b (l : list Z) : bool :=
   match l with [] => true | x :: r => negb (mem x r) && nodup_b r end.
 
 Definition valid_config (K : Z) (l : list (Z * Z)) : bool :=
-  forallb (fun p => (0 <=? fst p) && (fst p <? K) && ((snd p =? 0) || (snd p =? 1))) l &&
+  forallb (fun p => (0 <=? fst p) && (fst p <? K) && (0 <=? snd p) && (snd p <=? 3)) l &&
   nodup_b (map fst l).
 
 (* ops  [1; n1; t1; n2; t2; ...]  UpdateClientConnState, priorities n1 n2 ... with policy types
@@ -339,3 +356,179 @@ Definition holds_b (cfg : word) (ops obs : list word) : bool :=
 
 Definition check_case (c : case) : verdict :=
   decide (run (c_cfg c) (c_ops c)) (c_obs c) (clauses (c_cfg c) (c_ops c) (c_obs c)).
+
+
+(* ==== the same machine without rejecting child policies (policy types 0 and 1 only) ====
+   These are the definitions above with start_child never failing (so sync_scan has no
+   nested-scan branch).  proof/Priority_proofs.v proves that on histories whose config
+   updates use only policy types 0 and 1 (no_failing_types) the two machines coincide; the
+   theorems are proved on this one and transported. *)
+(* childBalancer.start (sendUpdate to a stub child never fails) *)
+Definition start_child_nf (t : Z) (c : child) : child :=
+  if started c then c
+  else start_timer t (mkchild true (cstate c) (picker c) (tf c) (timer c) (btype c)).
+
+(* switchToChild(child, p); lower = priorities[p+1:] *)
+Definition switch_to_nf (st : state) (name : Z) (lower : list Z) : state :=
+  let st1 := set_children st (stop_names (children st) lower) in
+  match children st1 name with
+  | None => st1
+  | Some c =>
+    if (inuse st1 =? name) && started c then st1
+    else
+      let st2 := set_inuse st1 name in
+      if started c then st2 else set_children st2 (upd (children st2) name (start_child_nf (now st2) c))
+  end.
+
+(* the for loop of syncPriority over priorities[p:] *)
+Fixpoint sync_scan_nf (st : state) (updating : Z) (l : list Z) : state :=
+  match l with
+  | [] => st
+  | name :: r =>
+    match children st name with
+    | None => sync_scan_nf st updating r
+    | Some c =>
+      if eligible c (match r with [] => true | _ => false end) then
+        let st1 := if negb (inuse st =? name) || (name =? updating)
+                   then emit st (cstate c) (picker c) else st in
+        switch_to_nf st1 name r
+      else sync_scan_nf st updating r
+    end
+  end.
+
+(* syncPriority(childUpdating); inhibitPickerUpdates is false whenever it is reached
+   (child policies never report from inside UpdateClientConnState here) *)
+Definition sync_nf (st : state) (updating : Z) : state := sync_scan_nf st updating (prios st).
+
+(* handleChildStateUpdate(name, State{s, pk}) *)
+Definition child_update_nf (st : state) (name s pk : Z) : state :=
+  match children st name with
+  | None => st
+  | Some c =>
+    if negb (started c) then st else
+    let c1 :=
+      if (s =? READY) || (s =? IDLE) then mkchild true s pk false None (btype c)
+      else if s =? TF then mkchild true s pk true None (btype c)
+      else (* CONNECTING *)
+        let c0 := mkchild true s pk (tf c) (timer c) (btype c) in
+        if negb (tf c) && negb (cstate c =? CONNECTING) then start_timer (now st) c0 else c0 in
+    sync_nf (set_children st (upd (children st) name c1)) name
+  end.
+
+(* UpdateClientConnState with Priorities = map fst l, Children = l (name -> policy type).
+   The two loops over the children maps are written as one map comprehension: names in
+   the config_nf are created or (on a policy-type change) stopped and renamed, all other
+   children are stopped and deleted. *)
+Definition config_nf (st : state) (l : list (Z * Z)) : state :=
+  let ch := fun m =>
+    match assoc m l with
+    | None => None
+    | Some ty =>
+      match children st m with
+      | None => Some (fresh ty)
+      | Some c =>
+        if btype c =? ty then Some c
+        else let c' := stop_child c in
+             Some (mkchild (started c') (cstate c') (picker c') (tf c') (timer c') ty)
+      end
+    end in
+  let st1 := mkst (now st) (closed st) (inuse st) (map fst l) ch (parent st) (out st) in
+  match l with
+  | [] => emit (set_inuse st1 (-1)) TF (-1)
+  | _ => sync_nf st1 (inuse st1)          (* resumePickerUpdates in run_nf() *)
+  end.
+
+(* the AfterFunc callbacks whose deadline is the current instant *)
+Fixpoint fire_all_nf (st : state) (names : list Z) : state :=
+  match names with
+  | [] => st
+  | n :: r =>
+    let st' :=
+      match children st n with
+      | Some c =>
+        match timer c with
+        | Some d =>
+          if d =? now st then
+            sync_nf (set_children st (upd (children st) n
+                   (mkchild (started c) (cstate c) (picker c) (tf c) None (btype c)))) (-1)
+          else st
+        | None => st
+        end
+      | None => st
+      end in
+    fire_all_nf st' r
+  end.
+
+Definition tick_nf (st : state) : state :=
+  let st1 := mkst (now st + 1) (closed st) (inuse st) (prios st) (children st) (parent st) (out st) in
+  fire_all_nf st1 (prios st1).
+
+Fixpoint sleep_nf (d : nat) (st : state) : state :=
+  match d with O => st | S d' => sleep_nf d' (tick_nf st) end.
+
+Definition valid_config_nf (K : Z) (l : list (Z * Z)) : bool :=
+  forallb (fun p => (0 <=? fst p) && (fst p <? K) && ((snd p =? 0) || (snd p =? 1))) l &&
+  nodup_b (map fst l).
+
+(* ops  [1; n1; t1; n2; t2; ...]  UpdateClientConnState, priorities n1 n2 ... with policy types
+        [2; n; s; pk]             the (built) child policy n reports State{s, picker pk}
+        [3; d]                    d seconds pass
+        [4]                       Close
+   anything malformed, and everything after Close, is a no-op *)
+Definition step_nf (K : Z) (st : state) (op : word) : state :=
+  let st0 := mkst (now st) (closed st) (inuse st) (prios st) (children st) (parent st) [] in
+  if closed st then st0 else
+  match op with
+  | 1 :: r =>
+    match pairs r with
+    | Some l => if valid_config_nf K l then config_nf st0 l else st0
+    | None => st0
+    end
+  | [2; n; s; pk] => if (0 <=? s) && (s <=? 3) then child_update_nf st0 n s pk else st0
+  | [3; d] => if (0 <=? d) && (d <=? 30) then sleep_nf (Z.to_nat d) st0 else st0
+  | [4] => close st0
+  | _ => st0
+  end.
+
+Fixpoint run_from_nf (K : Z) (st : state) (ops : list word) : list word :=
+  match ops with
+  | [] => []
+  | op :: r => let st' := step_nf K st op in obs_of K st' :: run_from_nf K st' r
+  end.
+
+Definition run_nf (cfg : word) (ops : list word) : option (list word) :=
+  match cfg_K cfg with Some K => Some (run_from_nf K init ops) | None => None end.
+
+Fixpoint final_nf (K : Z) (st : state) (ops : list word) : state :=
+  match ops with [] => st | op :: r => final_nf K (step_nf K st op) r end.
+
+Fixpoint clauses_from_nf (K : Z) (st : state) (prev : word) (i : Z) (ops obs : list word)
+  : list (Z * Z * bool) :=
+  match ops, obs with
+  | op :: r, o :: r' =>
+    let st' := step_nf K st op in
+    clause_op K st st' prev op o i ++ clauses_from_nf K st' o (i + 1) r r'
+  | [], [] => []
+  | _, _ => [(0, i, false)]
+  end.
+
+Definition clauses_nf (cfg : word) (ops obs : list word) : list (Z * Z * bool) :=
+  match cfg_K cfg with
+  | Some K => clauses_from_nf K init (obs_of K init) 0 ops obs
+  | None => [(0, 0, false)]
+  end.
+
+Definition holds_b_nf (cfg : word) (ops obs : list word) : bool :=
+  forallb (fun c => snd c) (clauses_nf cfg ops obs).
+
+
+(* no config update of the history names a rejecting policy type (2 or 3) *)
+Definition op_nf (op : word) : bool :=
+  match op with
+  | 1 :: r => match pairs r with
+              | Some l => forallb (fun p => snd p <? 2) l
+              | None => true
+              end
+  | _ => true
+  end.
+Definition no_failing_types (ops : list word) : bool := forallb op_nf ops.
